@@ -942,6 +942,10 @@ func (env *Env) evalCall(n ECall) Val {
 		if _, ok := v.Typ.Underlying().(*types.Slice); ok {
 			ref = fmt.Sprintf("(sl_ref %s)", ref)
 		}
+		if _, ok := v.Typ.Underlying().(*types.Interface); ok {
+			// the object behind an interface value
+			ref = e.absRef(v)
+		}
 		return term(fmt.Sprintf("(> %s %s)", ref, env.old.alloc), tBool)
 	case "unchanged":
 		// unchanged(s): the backing array of slice s is what it was at entry
